@@ -174,9 +174,9 @@ def visitor_total(crate, vm, any_value):
                                         if m and int(m.group(1)) < len(pr):
                                             txt += ' ; '.join(pr[int(m.group(1))])
                                     else:
-                                        txt += str(o.get('s', ''))
+                                        txt += str(o.get('s', '')) + (' "%s"' % o['str'] if isinstance(o.get('str'), str) else '')
                 elif a.get('k') == 'const':
-                    txt += str(a.get('s', ''))
+                    txt += str(a.get('s', '')) + (' "%s"' % a['str'] if isinstance(a.get('str'), str) else '')
             if '"error"' in txt:
                 eq_blocks.append((b, t))
     if not eq_blocks:
